@@ -274,7 +274,7 @@ impl Check for C11 {
     }
     fn budget(&self, tier: Tier) -> Budget {
         match tier {
-            Tier::Quick => Budget { runs: 6_000, wall_s: 60 },
+            Tier::Quick => Budget { runs: 20_000, wall_s: 90 },
             Tier::Thorough => Budget { runs: 300_000, wall_s: 600 },
         }
     }
